@@ -172,8 +172,7 @@ PROPS["C16"] = {
 
 _ECDSA_A = [
     {"spec": "MC_Ecdsa", "params": "mini43"},
-    {"spec": "MC_Ecdsa", "params": "mini79", "tiers": ("thorough",)},
-    {"spec": "MC_Ecdsa", "params": "mini163", "tiers": ("thorough",), "timeout": 7200},
+    {"spec": "MC_Ecdsa", "params": "mini79", "tiers": ("thorough",), "timeout": 7200},
 ]
 _ECDSA_MC = ("Ecdsa.tla states SEC 1 4.1.3-4.1.6 with the library's low-s / recovery-id rules; TLC checks on miniature curves (every point has a known "
              "discrete log, p-n = 12 makes x(R) >= n frequent) for ALL keys, ALL e, ALL (r,s) that the verification predicate is equivalent to 'some nonce k "
@@ -428,6 +427,7 @@ PROPS["C19"] = {
                   "each is validated against the specification. LookupAsm.tla is an instruction-level model GENERATED from point_mul_table_amd64.s and model-checked.",
     "level_note": "trusted: TLC, the generated reference copy (text of point_mul_table_ref.go), raw-memory accessors, SetPanicOnFault-based fault observation",
     "exhaustive": [],
+    "asm_model": True,
     "drivers": [
         {"driver": "lookup", "trace": "Trace_Lookup", "shards": 4},
         {"driver": "lookup", "trace": "Trace_Lookup", "shards": 4, "tags": _PG},
@@ -524,6 +524,7 @@ PROPS["C17"] = {
     "level_note": "secrets are sampled; a data-dependent memory index WITHOUT a branch outside the lookup routines is not visible to the block counters; hardware timing is "
                   "out of scope. Trusted: Go's coverage instrumentation, TLC, SetPanicOnFault-based fault observation",
     "exhaustive": [{"spec": "MC_CT", "cfg": "MC_CT.cfg", "params": "mini43", "workers": 1}],
+    "asm_model": True,
     "drivers": [
         {"driver": "ct", "trace": "Trace_CT", "shards": 1, "build": _COVER, "env": {"VERIF_COVDIR": "{work}/cov-verif"}, "post": _ct_funcs},
         {"driver": "ct", "trace": "Trace_CT", "shards": 1, "build": _COVER, "tags": _PG, "env": {"VERIF_COVDIR": "{work}/cov-verif-purego"}, "post": _ct_funcs},
